@@ -67,3 +67,43 @@ def register(w):
           'result.internal_convert_user_code == self.recursive',
           'seteq(result.optional_features, self.optional_features)',
       ]))
+
+  # ---- lemma layer (ghost code, verified against the contracts above only)
+  w.add(Contract(
+      'lemma.C20.equal_options_hash_equally', serves=['C20'], in_module='malt.core.converter',
+      types={'a': 'ConversionOptions', 'b': 'ConversionOptions'},
+      requires=[
+          # T: frozenset hashing is value based (CPython): equal contents => same abstract value
+          'implies(seteq(a.optional_features, b.optional_features),'
+          ' same(setvalue(a.optional_features), setvalue(b.optional_features)))'],
+      assumes=['T: hash/== of tuples, frozensets, bools and enum members are value based (CPython)'],
+      source='''
+def lemma(a, b):
+  if a == b:
+    assert hash(a) == hash(b)
+'''))
+  w.add(Contract(
+      'lemma.C20.unequal_options_compare_unequal', serves=['C20'], in_module='malt.core.converter',
+      types={'a': 'ConversionOptions', 'b': 'ConversionOptions'},
+      source='''
+def lemma(a, b):
+  differ = (a.recursive != b.recursive or a.user_requested != b.user_requested
+            or a.internal_convert_user_code != b.internal_convert_user_code)
+  if differ:
+    assert not (a == b)
+  if a == b:
+    assert a.recursive == b.recursive and a.user_requested == b.user_requested
+    assert a.internal_convert_user_code == b.internal_convert_user_code
+'''))
+  w.add(Contract(
+      'lemma.C20.call_options_policy', serves=['C20'], in_module='malt.core.converter',
+      types={'o': 'ConversionOptions', 'f': 'Feature'}, modifies=[],
+      source='''
+def lemma(o, f):
+  c = o.call_options()
+  assert c.recursive == o.recursive
+  assert not c.user_requested
+  assert c.internal_convert_user_code == o.recursive
+  assert c.uses(f) == o.uses(f)
+  assert o.uses(f) == (Feature.ALL in o.optional_features or f in o.optional_features)
+'''))
